@@ -96,6 +96,45 @@ def molecule(n, csel, catom, charges, btype, nmodels=1):
 HEADER_TEXTS = [("M  ENDO-7", ""), ("mol", "M  END of the route"), ("> <name>", "> <x>"), ("M  V30 END CTAB", "V2000"), ("1  0  0  0  0  0  0  0  0  0999 V2000", "M  CHG  1   1   1")]
 
 
+def check_headers(atoms, ver, kind):
+    """header lines are free text: they may look like the lines that structure the file (run after the molecule was
+    accepted by the writer, so that an error while READING is not mistaken for a refusal)"""
+    from biotite.structure.io.mol import MOLFile, SDFile, SDRecord, Header
+    if kind == 0:
+        for nm, cm in HEADER_TEXTS:
+            h = MOLFile()
+            h.header = Header(mol_name=nm, comments=cm)
+            h.set_structure(atoms, version=ver)
+            o = io.StringIO()
+            h.write(o)
+            hb = MOLFile.read(io.StringIO(o.getvalue()))
+            if hb.header.mol_name != nm or hb.header.comments != cm:
+                return f"MOL header ({nm!r}, {cm!r}) read back as ({hb.header.mol_name!r}, {hb.header.comments!r})"
+            hs = hb.get_structure()
+            if hs.element.tolist() != atoms.element.tolist() or hs.bonds.as_set() != atoms.bonds.as_set():
+                return f"molecule under the MOL header ({nm!r}, {cm!r}) read back differently"
+    else:
+        for nm, cm in HEADER_TEXTS:
+            if nm.startswith("$$$$") or cm.startswith("$$$$"):
+                continue          # '$$$$' at a line start is the record separator of the format itself
+            hr = SDRecord()
+            hr.header = Header(mol_name=nm, comments=cm)
+            hr.set_structure(atoms, version=ver)
+            other = SDRecord()
+            other.header = Header(mol_name="other")
+            other.set_structure(atoms, version=ver)
+            hf = SDFile({nm: hr, "other": other})
+            o = io.StringIO()
+            hf.write(o)
+            hb = SDFile.read(io.StringIO(o.getvalue()))
+            if list(hb.keys()) != [nm, "other"] or hb[nm].header.comments != cm or hb[nm].header.mol_name != nm:
+                return f"SD record header ({nm!r}, {cm!r}) read back as {list(hb.keys())}"
+            hs = hb[nm].get_structure()
+            if hs.element.tolist() != atoms.element.tolist() or hs.bonds.as_set() != atoms.bonds.as_set():
+                return f"molecule under the SD record header ({nm!r}, {cm!r}) read back differently"
+    return None
+
+
 def check_mol(n, csel, catom, c0, btype, version, kind):
     import biotite.structure as struc
     from biotite.structure.io.mol import MOLFile, SDFile, SDRecord, Header, Metadata
@@ -108,49 +147,21 @@ def check_mol(n, csel, catom, c0, btype, version, kind):
         if kind == 0:
             f.header = Header(mol_name="mol", initials="AB", program="prog", dimensions="3D", comments="a comment")
             f.set_structure(atoms, version=ver)
-            # header lines are free text: they may look like the lines that structure the file
-            for nm, cm in HEADER_TEXTS:
-                h = MOLFile()
-                h.header = Header(mol_name=nm, comments=cm)
-                h.set_structure(atoms, version=ver)
-                o = io.StringIO()
-                h.write(o)
-                hb = MOLFile.read(io.StringIO(o.getvalue()))
-                if hb.header.mol_name != nm or hb.header.comments != cm:
-                    return f"MOL header ({nm!r}, {cm!r}) read back as ({hb.header.mol_name!r}, {hb.header.comments!r})"
-                hs = hb.get_structure()
-                if hs.element.tolist() != atoms.element.tolist() or hs.bonds.as_set() != atoms.bonds.as_set():
-                    return f"molecule under the MOL header ({nm!r}, {cm!r}) read back differently"
         else:
             rec = SDRecord()
             rec.header = Header(mol_name="r1")
             rec.set_structure(atoms, version=ver)
             rec.metadata = Metadata({"Some_Key": "line1\nline2", Metadata.Key(number=3, name="N.x", registry_internal=7, registry_external="E-1"): "v"})
             f["r1"] = rec
-            for nm, cm in HEADER_TEXTS:
-                if nm.startswith("$$$$") or cm.startswith("$$$$"):
-                    continue          # '$$$$' at a line start is the record separator of the format itself
-                hr = SDRecord()
-                hr.header = Header(mol_name=nm, comments=cm)
-                hr.set_structure(atoms, version=ver)
-                other = SDRecord()
-                other.header = Header(mol_name="other")
-                other.set_structure(atoms, version=ver)
-                hf = SDFile({nm: hr, "other": other})
-                o = io.StringIO()
-                hf.write(o)
-                hb = SDFile.read(io.StringIO(o.getvalue()))
-                if list(hb.keys()) != [nm, "other"] or hb[nm].header.comments != cm or hb[nm].header.mol_name != nm:
-                    return f"SD record header ({nm!r}, {cm!r}) read back as {list(hb.keys())}"
-                hs = hb[nm].get_structure()
-                if hs.element.tolist() != atoms.element.tolist() or hs.bonds.as_set() != atoms.bonds.as_set():
-                    return f"molecule under the SD record header ({nm!r}, {cm!r}) read back differently"
             rec2 = SDRecord()
             rec2.header = Header(mol_name="r0")
             rec2.set_structure(molecule(2, 0, 0, [0], 0), version=ver)
             f["r0"] = rec2
     except (BadStructureError, ValueError):
         return None               # refused
+    why = check_headers(atoms, ver, kind)
+    if why:
+        return why
     out = io.StringIO()
     f.write(out)
     text = out.getvalue()
@@ -384,8 +395,13 @@ def check_rdkit_default(mi, nmodels):
         back = rd.from_mol(mol)
         # conversion with every option leaves the input molecule as it was; kekulize=True gives the same molecule with
         # its aromatic bonds written as single / double
-        for kw in (dict(kekulize=True), dict(use_dative_bonds=True), dict(explicit_hydrogen=True)):
+        options = [dict(kekulize=True), dict(use_dative_bonds=True), dict(explicit_hydrogen=True)]
+        if "H" not in atoms.element.tolist():
+            options.append(dict(explicit_hydrogen=False))          # (legal for molecules without hydrogen atoms)
+        for kw in options:
             mk = rd.to_mol(src, **kw)
+            if mk.GetNumConformers() != nmodels or mk.GetNumAtoms() != atoms.array_length():
+                return f"{m}: to_mol({kw}) gives {mk.GetNumConformers()} conformers of {mk.GetNumAtoms()} atoms for {nmodels} models of {atoms.array_length()} atoms"
             if src != before or src.bonds.as_set() != before.bonds.as_set():
                 return f"{m}: to_mol({kw}) changed its input (bonds now {sorted(src.bonds.as_set())})"
             if kw == dict(kekulize=True):
